@@ -166,6 +166,15 @@ def _hasattr(ip, args, kw, fr):
         if pc is not None and inspect.getattr_static(pc, name, E._MISSING) is not E._MISSING:
             return mk_bool(True)
         return mk_bool(False)
+    if v.k == 'val' and v.T is not None and v.T[0] != 'any':
+        # a value of a union of model classes: decide the class on this path (forks), then answer for that class
+        alts = type_alternatives(v.T)
+        if all(a[0] == 'obj' for a in alts):
+            for i, a in enumerate(alts):
+                c = z3.And(Val.is_r(v.e), cls_of(Val.rv(v.e)) == ip.reg.cid(a[1]))
+                last = i == len(alts) - 1
+                if (last and ip._assume_last(c)) or (not last and ip.decide(c)):
+                    return _hasattr(ip, [SV('ref', Val.rv(v.e), cls=a[1]), n], kw, fr)
     raise Unsupported(f'hasattr on {v.k}')
 
 
